@@ -214,6 +214,7 @@ func cmdRun(args []string) int {
 		}
 
 		// trace validation: sampled symbolic paths replayed natively
+		var traceOuts [][]string
 		if len(ex.TraceVecs) > 0 {
 			reqs := make([]twinReq, len(ex.TraceVecs))
 			for i, v := range ex.TraceVecs {
@@ -221,6 +222,7 @@ func cmdRun(args []string) int {
 			}
 			outs, err := twin.RunBatch(reqs)
 			if err == nil {
+				traceOuts = outs
 				if referee != nil {
 					n, dis, ex := referee.modelAgreement(outs)
 					he.ModelVsPG, he.ModelVsPGDisagree = n, dis
@@ -254,13 +256,55 @@ func cmdRun(args []string) int {
 			}
 		}
 
+		// an assertion of this property that fails in a native run is a real failure of the
+		// property's observable on a solver-found input, whatever the engine thought of it
+		// (the engine or a library model may lag behind an edited tree)
+		harvested := map[string]bool{}
+		harvest := func(vec []int64, lines []string) {
+			for _, l := range lines {
+				if !strings.HasPrefix(l, "ASSERT-FAIL ") {
+					continue
+				}
+				id := strings.TrimPrefix(l, "ASSERT-FAIL ")
+				if ignore[id] || info[id] {
+					continue
+				}
+				var tags []string
+				for _, t := range lines {
+					if strings.HasPrefix(t, "TAG ") {
+						tg := strings.TrimPrefix(t, "TAG ")
+						dup := false
+						for _, x := range tags {
+							if x == tg {
+								dup = true
+							}
+						}
+						if !dup {
+							tags = append(tags, tg)
+						}
+					}
+				}
+				sort.Strings(tags)
+				c := &Candidate{Harness: hr.Harness, Assertion: id, Tags: tags, Vals: vec, Text: fmt.Sprintf("native replay vector %v", vec)}
+				if _, have := ex.Cands[c.key()]; have || harvested[c.key()] {
+					continue
+				}
+				harvested[c.key()] = true
+				ex.Cands[c.key()] = []*Candidate{c}
+			}
+		}
+		for i, lines := range traceOuts {
+			harvest(ex.TraceVecs[i], lines)
+		}
+
 		// confirmation of candidates
 		keys := []string{}
 		for k := range ex.Cands {
 			keys = append(keys, k)
 		}
 		sort.Strings(keys)
-		for _, k := range keys {
+		for ki := 0; ki < len(keys); ki++ {
+			k := keys[ki]
 			cs := ex.Cands[k]
 			id := cs[0].Assertion
 			if ignore[id] || (id == "no-panic" && !hr.Panics) {
@@ -278,6 +322,24 @@ func cmdRun(args []string) int {
 			outs, err := twin.RunBatchT(reqs, limit)
 			if err != nil {
 				continue
+			}
+			// other assertions of the property that fail natively on these vectors are queued too
+			before := len(harvested)
+			for i, lines := range outs {
+				harvest(reqs[i].Vals, lines)
+			}
+			if len(harvested) > before {
+				for hk := range harvested {
+					found := false
+					for _, kk := range keys {
+						if kk == hk {
+							found = true
+						}
+					}
+					if !found {
+						keys = append(keys, hk)
+					}
+				}
 			}
 			var confirmed *Candidate
 			var nativeOut []string
